@@ -563,6 +563,7 @@ func main() {
 		res.Count(fmt.Sprintf("loop_failed_attempts=%d", r.Failed))
 		res.Distribution["loop_attempts"] += r.Attempts
 		res.Distribution["loop_requeues"] += r.Requeues
+		res.Distribution["loop_twin_stale_partial_sync_a_equals_fresh"] += r.TwinStale
 		res.OracleChecks += r.Attempts - r.Failed + 1
 		if r.Key != "" {
 			res.Count("oracle_fail_" + r.Key)
